@@ -125,6 +125,9 @@ def replay_buffer(inputs):
         script = "from aioquic._buffer import Buffer\nb = Buffer(capacity=%s)\nb.push_uint8(1)\nprint('survived')\n" % (capv if capv is not None else -1)
     elif meth.endswith("_getter"):
         script = "from aioquic._buffer import Buffer\nb = Buffer(capacity=%d)\nb.seek(%d)\nprint(b.%s)\n" % (cap, pos, meth.replace("_getter", ""))
+    elif meth.startswith("pull") or meth == "data_slice":
+        content = "bytes(%d) + bytes(%r)[:%d]" % (pos, [inputs.get("buf_b%d" % k, 0) for k in range(8)], max(0, cap - pos))
+        script = "from aioquic._buffer import Buffer\nd = %s\nd = d + bytes(%d - len(d))\nb = Buffer(data=d)\nb.seek(%d)\ntry:\n    print(b.%s(%s))\nexcept ValueError as e:\n    print('raised', e)\n" % (content, cap, pos, meth, ", ".join(args))
     else:
         script = "from aioquic._buffer import Buffer\nb = Buffer(capacity=%d)\nb.seek(%d)\ntry:\n    b.%s(%s)\nexcept ValueError as e:\n    print('raised', e)\n" % (cap, pos, meth, ", ".join(args))
     rep, summary = C.run_under_asan(script)
@@ -151,6 +154,16 @@ def crypto_fn(fname):
 
 
 def replay_crypto(inputs):
+    r = _replay_crypto(inputs)
+    if not r.get("reproduced") and inputs.get("_alt"):
+        r2 = _replay_crypto(dict(inputs["_alt"], _fn=inputs.get("_fn")))
+        if r2.get("reproduced"):
+            r2["msg"] += " (larger witness of the same obligation)"
+            return r2
+    return r
+
+
+def _replay_crypto(inputs):
     fn = inputs.get("_fn", "")[1:]
     g = inputs.get
 
